@@ -668,12 +668,6 @@ impl ClusterActor {
             } {
                 for commit in commits {
                     for event in commit {
-                        // Check if we've reached the count limit
-                        if events_collected >= count {
-                            has_more = true;
-                            break 'iter;
-                        }
-
                         // The stream index is per bucket: a stream that lives in another
                         // partition of this bucket is not this partition's, and this
                         // partition's watermark says nothing about its events
@@ -684,6 +678,13 @@ impl ClusterActor {
                         // Check if event is beyond watermark (safety check - uses
                         // partition_sequence)
                         if event.partition_sequence >= watermark {
+                            break 'iter;
+                        }
+
+                        // Check if we've reached the count limit (after the two checks above:
+                        // `has_more` only speaks of events this read may return)
+                        if events_collected >= count {
+                            has_more = true;
                             break 'iter;
                         }
 
